@@ -1,5 +1,6 @@
 import Driver.Util
 import ZixModel.Model.Hash
+import ZixModel.Properties.C08Hash
 namespace Driver.C03
 open Zix.Hash
 
@@ -7,6 +8,7 @@ structure St where
   t : Table
   keys : List (Nat × Nat)     -- record id → key id
   failNext : Bool             -- the next allocation request is refused
+  blocks : Zix.C08Hash.Blocks := Zix.C08Hash.Blocks.start   -- ghost allocator state
 
 def St.keyOf (s : St) (r : Nat) : Nat := (s.keys.lookup r).getD 0
 
@@ -26,12 +28,20 @@ def fmtStatus : Status → String
 def wb (t : Table) (evs : List Ev) : String :=
   s!" | n={t.n} count={t.count} [{" ".intercalate (t.slots.map fmtSlot)}] cb[{" ".intercalate (evs.map fmtEv)}]"
 
+/-- allocator events as the tracking allocator logs them: the header comes from malloc, entry arrays from calloc -/
+def fmtA : Zix.C08Hash.AEv → String
+  | .alloc b => if b = 1 then "M1" else s!"C{b}"
+  | .refused => "C0"
+  | .free b => s!"f{b}"
+
+def fmtAs (es : List Zix.C08Hash.AEv) : String := " ev[" ++ " ".intercalate (es.map fmtA) ++ "]"
+
 def optS (o : Option Nat) : String := match o with | some r => toString r | none => "NULL"
 
 def step (s : St) (ws : List String) : St × String :=
   let allocOk := !s.failNext
   match ws with
-  | ["new"] => let s' : St := ⟨new, [], false⟩; (s', "new" ++ wb s'.t [])
+  | ["new"] => let s' : St := { t := new, keys := [], failNext := false }; (s', "new" ++ wb s'.t [] ++ fmtAs Zix.C08Hash.newEvents)
   | ["failnext"] => ({ s with failNext := true }, "failnext")
   | ["ins", r, k, c] | ["pins", r, k, c] | ["pinsp", r, k, c] =>
     match r.toNat?, k.toNat?, c.toNat? with
@@ -39,31 +49,33 @@ def step (s : St) (ws : List String) : St × String :=
       let s1 := { s with keys := (r, k) :: s.keys.filter (·.1 ≠ r) }
       let (t', st, evs) := insert s1.keyOf s1.t r c allocOk
       -- the two-step variants call key_func/hash_func themselves (harness), same events
-      let s2 := { s1 with t := t', failNext := false }
-      (s2, s!"st={fmtStatus st} size={t'.count}" ++ wb t' evs)
+      let e := Zix.C08Hash.callEvents s.blocks (st == .noMem) (decide (t'.n ≠ s.t.n))
+      let s2 := { s1 with t := t', failNext := false, blocks := e.1 }
+      (s2, s!"st={fmtStatus st} size={t'.count}" ++ wb t' evs ++ fmtAs e.2)
     | _, _, _ => (s, "bad-op")
   | ["find", k, c] =>
     match k.toNat?, c.toNat? with
     | some k, some c =>
       let (r, evs) := find s.keyOf s.t k c
       let it := match r with | some i => s!"rec={optS (recordAt s.t i)}" | none => "rec=END"
-      (s, it ++ wb s.t evs ++ (match r with | some i => s!" it={i}" | none => ""))
+      (s, it ++ wb s.t evs ++ fmtAs [] ++ (match r with | some i => s!" it={i}" | none => ""))
     | _, _ => (s, "bad-op")
   | ["findr", k, c] =>
     match k.toNat?, c.toNat? with
     | some k, some c =>
       let (r, evs) := find s.keyOf s.t k c
       let found := match r with | some i => recordAt s.t i | none => none
-      (s, s!"rec={optS found}" ++ wb s.t evs)
+      (s, s!"rec={optS found}" ++ wb s.t evs ++ fmtAs [])
     | _, _ => (s, "bad-op")
   | ["rm", k, c] | ["erase", k, c] =>
     match k.toNat?, c.toNat? with
     | some k, some c =>
       let (t', st, r, evs) := remove s.keyOf s.t k c allocOk
-      let s' := { s with t := t', failNext := false }
-      (s', s!"st={fmtStatus st} removed={optS r} size={t'.count}" ++ wb t' evs)
+      let e := Zix.C08Hash.callEvents s.blocks (st == .noMem) (decide (t'.n ≠ s.t.n))
+      let s' := { s with t := t', failNext := false, blocks := e.1 }
+      (s', s!"st={fmtStatus st} removed={optS r} size={t'.count}" ++ wb t' evs ++ fmtAs e.2)
     | _, _ => (s, "bad-op")
-  | ["iter"] => (s, s!"iter={(iterate s.t).map toString |> " ".intercalate} size={s.t.count}" ++ wb s.t [])
+  | ["iter"] => (s, s!"iter={(iterate s.t).map toString |> " ".intercalate} size={s.t.count}" ++ wb s.t [] ++ fmtAs [])
   | _ => (s, "bad-op")
 
 end Driver.C03
